@@ -16,7 +16,10 @@ Cfgs == <<
    C0(<<A0(97, <<>>, "flag"), A0(98, <<97, 98>>, "str")>>),                                   \* flag a, string b/ab
    C0(<<A0(97, <<97, 97>>, "flag"), [A0(98, <<>>, "vecstr") EXCEPT !.multi = TRUE]>>),        \* flag a/aa, multi-value b
    C0(<<A0(97, <<>>, "str"), [A0(0, <<>>, "str") EXCEPT !.pos = TRUE]>>),                     \* string a, positional
-   C0(<<A0(97, <<97, 98>>, "int"), A0(98, <<97, 98, 98>>, "flag")>>)                           \* int a/ab, flag b/abb
+   C0(<<A0(97, <<97, 98>>, "int"), A0(98, <<97, 98, 98>>, "flag")>>),                          \* int a/ab, flag b/abb
+   C0(<<A0(97, <<>>, "flag"), [A0(98, <<97, 98>>, "str") EXCEPT !.vm = "cmd"]>>),             \* flag a, command-mode string b/ab
+   C0(<<A0(97, <<>>, "flag"),                                                                 \* flag a, sub-group b with a string a/aa inside
+        [sub |-> C0(<<A0(97, <<97, 97>>, "str")>>), subctor |-> 0] @@ [A0(98, <<>>, "flag") EXCEPT !.kind = "sub"]>>)
 >>
 Alpha == {45, 61, 97, 98, 33, 40}
 WordSet == UNION {[1..n -> Alpha] : n \in 0..MaxWordLen}
